@@ -75,7 +75,16 @@ def run_case(darsia, rng, tid, c):
             if c["fault"] is not None and calls["loop"] - 1 == c["fault"]:
                 calls["injected"] = True
                 raise InjectedFault(f"injected failure of the inner solve of iteration {c['fault']}")
-        return orig_ls(*a, **k)
+        out = orig_ls(*a, **k)
+        try:   # achieved precision of this inner solve (residual in the system it was given)
+            M, b = a[0], np.asarray(a[1], dtype=float)
+            # absolute residual, in units of the mass right-hand side (the rhs of an accelerated iteration can be
+            # many orders larger than the masses; "linear-solver precision" of the mass rows is then this residual)
+            r = float(np.abs(M @ np.asarray(out[0], dtype=float) - b).max()) / scale
+            calls["linres"] = max(calls.get("linres", 0.0), r)
+        except Exception:
+            pass
+        return out
 
     def l1(flux):
         if state["in_solve"]:
@@ -109,9 +118,12 @@ def run_case(darsia, rng, tid, c):
     def mb(u):
         return exponent(float(np.abs(D @ u - rhs).max()) / scale)
 
+    def lin():
+        return exponent(calls.get("linres", 0.0))
+
     base = {"tid": tid}
     if raised:
-        ev.append(dict(base, op="start", num_iter=opts["num_iter"], mbexp=-17))
+        ev.append(dict(base, op="start", num_iter=opts["num_iter"], mbexp=-17, linexp=-17))
         ev.append(dict(base, op="end", raised=1, error=err))
         return ev
     flat = state["flat"]
@@ -124,13 +136,13 @@ def run_case(darsia, rng, tid, c):
         # an iteration that reproduces the previous flux exactly adds no new version
         while len(versions) < ncompleted + 1:
             versions.append(versions[-1])
-    ev.append(dict(base, op="start", num_iter=opts["num_iter"], mbexp=mb(versions[0])))
+    ev.append(dict(base, op="start", num_iter=opts["num_iter"], mbexp=mb(versions[0]), linexp=lin()))
     critmet = criteria_met(c["method"], hist, opts)
     # an iteration failed: injected by the harness, or an internal error swallowed by the blanket handler
     faulted = bool(caught)
     internal = faulted and not calls.get("injected", False)
     for k in range(ncompleted):
-        ev.append(dict(base, op="iter", i=k, mbexp=mb(versions[k + 1]), last=int(k == ncompleted - 1 and not faulted), critmet=int(critmet)))
+        ev.append(dict(base, op="iter", i=k, mbexp=mb(versions[k + 1]), linexp=lin(), last=int(k == ncompleted - 1 and not faulted), critmet=int(critmet)))
     if faulted:
         ev.append(dict(base, op="fault", i=ncompleted, internal=int(internal)))
     # which version does the returned flux equal?
@@ -152,7 +164,7 @@ def run_case(darsia, rng, tid, c):
     pin = float(np.asarray(info["pressure"]).ravel("F")[int(w1.constrained_cell_flat_index)])
     pscale = max(1.0, float(np.abs(np.asarray(info["pressure"])).max()))
     ev.append(dict(base, op="end", raised=0, converged=int(bool(info["converged"])), critmet=int(critmet and not faulted),
-                   retver=retver, dexp=exponent(drel), mbexp=mb(uret), pinexp=exponent(abs(pin) / pscale),
+                   retver=retver, dexp=exponent(drel), mbexp=mb(uret), linexp=lin(), pinexp=exponent(abs(pin) / pscale),
                    cfexp=cfe, tdexp=tde, earlyexit=int(bool(np.isnan(dist))), niter=int(info["number_iterations"]), ncompleted=ncompleted))
     return ev
 
@@ -169,6 +181,8 @@ def configs(rng, quick, terminals):
     n = 28 if quick else 1100
     for i in range(n):
         shape, h = rng.choice(shapes)
+        if rng.random() < 0.7:   # the same shape recurs with other (anisotropic) voxel sizes within one process
+            h = [rng.choice([1.0, 0.5, 0.25, 2.0, 0.1, 0.3 / 7]) for _ in shape]
         method = rng.choice(["newton", "bregman", "bregman"])
         form, ls = rng.choice(solvers)
         num_iter = rng.choice([4, 6])
